@@ -3,7 +3,8 @@
 import json, os, sys
 VERIF = os.path.dirname(os.path.dirname(os.path.abspath(__file__)))
 sys.path.insert(0, os.path.join(VERIF, "bin"))
-from props import PROPS
+from props import PROPS as _ALLPROPS, REGISTERED
+PROPS = {k: v for k, v in _ALLPROPS.items() if k in REGISTERED}
 try:
     from props import NOT_APPLICABLE
 except ImportError:
